@@ -376,7 +376,7 @@ func main() {
 	r = vx.Start("C13", "model_checking")
 	clog.SetLogLevel("crit")
 	r.QuietStderr()
-	r.Rule = "configuration in {mvcc plugin on, off} (txindex, addrindex, addrfeeindex, fee, stat always on) x block X from the alphabet (1-3 transactions: coins transfers to known / never-seen / own address, several receivers, failing transfer, none, manage Modify and Apply, groups of two succeeding and failing, mixtures) plus one block of 96 transfers (parallel merkle root) executed on the prior state trunk(12)+S: part 'seams' = on one long-running node every map-order policy (all permutations of maps with <= 4 keys, all rotations of the sorted and reversed key list above; maps: plugin table, executor cache maps, key sets of checkKV/DelDupKey/CheckTxDup) with the worker count cycling through {1,2,3,4,8,16}, plus every worker count under the canonical order; part 'history' = a fresh node per sequence of <= 2 prior activities from {other block executed, local queries, X's transactions in the pool, block Y sharing a transaction with X connected and rolled back}. Outputs compared byte for byte with the first execution: EventExecTxList receipts, PreExecBlock state write set / state root / header+receipts, EventAddBlock and (after connecting X through the blockchain module) EventDelBlock local write sets. state = (configuration, X, part, variation); distinct = (configuration, X, output hash) classes"
+	r.Rule = "configuration in {mvcc plugin on, off, off with mavl mem-tree} (txindex, addrindex, addrfeeindex, fee, stat always on) x block X from the alphabet (1-3 transactions: coins transfers to known / never-seen / own address, several receivers, failing transfer, none, manage Modify and Apply, groups of two succeeding and failing, mixtures) plus one block of 96 transfers (parallel merkle root) executed on the prior state trunk(12)+S: part 'seams' = on one long-running node every map-order policy (all permutations of maps with <= 4 keys, all rotations of the sorted and reversed key list above; maps: plugin table, executor cache maps, key sets of checkKV/DelDupKey/CheckTxDup) with the worker count cycling through {1,2,3,4,8,16}, plus every worker count under the canonical order; part 'fresh-process' = a new OS process started on a snapshot of the prior state; part 'history' = a fresh node per sequence of <= 2 prior activities from {other block executed, local queries, X's transactions in the pool, block Y sharing a transaction with X connected and rolled back}. Outputs compared byte for byte with the first execution: EventExecTxList receipts, PreExecBlock state write set / state root / header+receipts, EventAddBlock and (after connecting X through the blockchain module) EventDelBlock local write sets. state = (configuration, X, part, variation); distinct = (configuration, X, output hash) classes"
 	r.Assume = []string{
 		"goroutine interleavings inside verifyTxsSignature / GetMerkleRoot are left to the runtime (their results are a conjunction / collected by index); worker counts are enumerated",
 		"the mvcc-on configuration reads state through the local DB while local reads are disabled during Exec (odd but deterministic balances); every block also runs with the plugin off",
@@ -460,17 +460,18 @@ func memTree(bool) {
 }
 
 type world struct {
-	env     *lidx.Env
-	cfgName string
-	S, Y0   *types.Block
-	ZT, ZS  *types.Block
-	addrs   []string
-	fillerY *types.Transaction
+	historyOnly bool // quick tier: worker counts, new process and histories only
+	env         *lidx.Env
+	cfgName     string
+	S, Y0       *types.Block
+	ZT, ZS      *types.Block
+	addrs       []string
+	fillerY     *types.Transaction
 }
 
 func run(env *lidx.Env, cfgName string) {
 	setVar(0, 1)
-	w := &world{env: env, cfgName: cfgName}
+	w := &world{env: env, cfgName: cfgName, historyOnly: strings.Contains(cfgName, "memtree")}
 	T := env.Tip()
 	var err error
 	must := func(what string, err error) {
@@ -492,6 +493,9 @@ func run(env *lidx.Env, cfgName string) {
 	w.addrs = append([]string{}, lidx.Addrs[:]...)
 	w.addrs = append(w.addrs, address.ExecAddress("none"), address.ExecAddress("manage"))
 	specs := lidx.Alphabet()
+	if !r.Quick() {
+		specs = lidx.AllBlocks(3) // every multiset of <= 3 transactions over ten kinds
+	}
 	specs = append(specs, lidx.Spec{Name: "96 x A->D", Txs: func(e *lidx.Env) []*types.Transaction {
 		var txs []*types.Transaction
 		for i := 0; i < 96; i++ {
@@ -669,6 +673,10 @@ func block(w *world, sp lidx.Spec) {
 				// by design: the large block is there for the worker counts
 				need, limit = 7, 7
 			}
+			if w.historyOnly && r.Quick() {
+				// by design: this configuration is about a process-global cache, not about map order
+				need, limit = 1, 1
+			}
 			if v >= need || v >= limit {
 				if v < need {
 					r.Cap(fmt.Sprintf("map-order policies limited to %d (block %s needs %d)", limit, sp.Name, need))
@@ -709,6 +717,9 @@ func block(w *world, sp lidx.Spec) {
 		limit := int64(r.Pick(128, 2000))
 		if big {
 			limit = 7
+		}
+		if w.historyOnly && r.Quick() {
+			limit = 1
 		}
 		for v := int64(0); v < int64(policiesNeeded()) && v < limit; v++ {
 			if replay != nil && v != replay.Map {
